@@ -234,7 +234,10 @@ class Gen:
         u = "%sS%d" % (p.id, len(p.std))
         m = {"u": u, "bi": p.id + "bi"}
         self.feat(p, "std:" + s[0])
-        return (s[2] % m if s[2] else ""), "(" + s[3] % m + ")", list(s[1])
+        helper = s[2] % m if s[2] else ""
+        expr = "(" + s[3] % m + ")"
+        # (helper code, its imports, expression, the expression's imports): an import belongs where the package name is written
+        return helper, [x for x in s[1] if x.split("/")[-1] + "." in helper], expr, [x for x in s[1] if x.split("/")[-1] + "." in expr]
 
     # ---------------------------------------------------------------- one package
     def package(self, p, pkgs):
@@ -315,9 +318,9 @@ class Gen:
                 if sp:
                     std_budget -= 1
                     if sp[0]:
-                        add(sp[0], (), [x for x in sp[2] if x.split("/")[-1] + "." in sp[0]], "stdhelper")
-                    terms.append(sp[1])
-                    std += sp[2]
+                        add(sp[0], (), sp[1], "stdhelper")
+                    terms.append(sp[2])
+                    std += sp[3]
             if extra_hidden and plain_targets and r.random() < 0.3 and "hidden-read" not in self.avoid:
                 # hidden read through an interface method: no initialisation dependency by the spec
                 tgt = r.choice(plain_targets)
